@@ -168,12 +168,20 @@ def run(ctx):
     from .c01 import _truth_table
     pne = en.func("pair_nuclear_energy")
     preds = {}
-    for st in ast.walk(pne):
-        if isinstance(st, ast.Assign) and isinstance(st.targets[0], ast.Name) and st.targets[0].id in ("XH", "XCC", "XSiO"):
-            preds.setdefault(st.targets[0].id, []).append(st)
+    # the predicates may live in pair_nuclear_energy or in helpers it calls (one level), possibly under the suffixed names the normaliser gives inlined locals
+    scopes_ = [pne] + [en.functions[nm_] for nm_ in sorted({(call_name(c_) or "") for c_ in calls_in(pne)}) if nm_ in en.functions and en.functions[nm_] is not pne]
+    for sc_ in scopes_:
+        for st in ast.walk(sc_):
+            if isinstance(st, ast.Assign) and isinstance(st.targets[0], ast.Name) and st.targets[0].id.split("__")[0] in ("XH", "XCC", "XSiO"):
+                preds.setdefault(st.targets[0].id.split("__")[0], []).append(st)
     want = {"XH": [frozenset({(7, 1), (8, 1)}), frozenset({(6, 1), (7, 1), (8, 1)})], "XCC": [frozenset({(6, 6)})], "XSiO": [frozenset({(14, 8)})]}
     for nm, specs in want.items():
         sts = sorted(preds.get(nm, []), key=lambda s: s.lineno)
+        if len(sts) == len(specs) and len(specs) > 1:
+            # which definition belongs to which method family is decided by its content when both are present (helpers may be defined in any order)
+            tts_ = [_truth_table(st_.value) for st_ in sts]
+            if set(tts_) == set(specs):
+                sts = [sts[tts_.index(sp_)] for sp_ in specs]
         if len(sts) != len(specs):
             raise AnalysisError(f"pair_nuclear_energy: predicate {nm} defined {len(sts)} times")
         for st, spec in zip(sts, specs):
@@ -615,7 +623,7 @@ def check_core_core_form(ctx, rid):
     for method, xh in itertools.product(("MNDO", "AM1", "PM3"), (False, True)):
         par = (sp.Symbol("alpha_tuple"), sp.Symbol("K"), sp.Symbol("L"), sp.Symbol("M")) if method != "MNDO" else (sp.Symbol("alpha_tuple"),)
         envE = {"rij": r / a0s, "a0": a0s, "gam": gam, "parameters": par, "const.tore": sp.Symbol("tore"), "const.atomic_num": sp.Symbol("an")}
-        se = SymExec(envE, {"XH": xh}, {"method": method}, dict(idx, **{"parameters[0]": sp.Symbol("alpha")}), funcs)
+        se = SymExec(envE, {"XH": xh}, {**__import__("sa.symexec", fromlist=["literal_globals"]).literal_globals(repo.mod("seqm/seqm_functions/energy.py")), "method": method}, dict(idx, **{"parameters[0]": sp.Symbol("alpha")}), funcs)
         se.env["alpha"] = sp.Symbol("alpha")
         try:
             E = se.run(list(pne.body))
